@@ -662,3 +662,12 @@ Module Ex.
     view (stores [(2, CSet [0; 1; 2])] hs) m <> Ok v.
   Proof. split; [vm_compute; reflexivity | vm_compute; discriminate]. Qed.
 End Ex.
+
+Lemma copy_independent_both : forall h m v m' h', view h m = Ok v -> mol_copy h m = Ok (m', h') ->
+  (forall ws, (forall w, In w ws -> List.length h <= fst w) -> view (stores ws h') m = Ok v) /\
+  (forall ws, (forall w, In w ws -> fst w < List.length h) -> view (stores ws h') m' = Ok v).
+Proof.
+  intros h m v m' h' H C. split.
+  - exact (copy_independent_orig h m v m' h' H C).
+  - exact (copy_independent_copy h m v m' h' H C).
+Qed.
